@@ -153,10 +153,22 @@ Rewrite(cfg, toks0) ==
 (* ------------------------------------------------------------------ *)
 (* evaluation (A.5)                                                    *)
 (* ------------------------------------------------------------------ *)
-VSet(ts) == [err |-> "", t |-> "set", parts |-> <<ts>>, lparts |-> <<>>]
-VTup(ps) == [err |-> "", t |-> "tup", parts |-> ps, lparts |-> <<>>]
-VTwo(l, r) == [err |-> "", t |-> "two", parts |-> r, lparts |-> l]
-VErr(e) == [err |-> e, t |-> "set", parts |-> <<>>, lparts |-> <<>>]
+(* Values are the trees Structured.tla describes, with term lists as leaves:              *)
+(*   leaf  an OrderedSet of terms;  tup  a python tuple;  st  a Structured (keys in order).  *)
+(* Structural operators ('~' in its three roles, '|') build structure themselves; every     *)
+(* other operator is applied through Structured._merge, which pairs the operands key by key *)
+(* (a bare operand counts as the root) and leaves a key that only one operand has untouched *)
+(* - so a unary operator never reaches the leaves of a structured operand.                  *)
+TLeaf(ts) == [err |-> "", t |-> "leaf", ts |-> ts, items |-> <<>>, keys |-> <<>>, vals |-> <<>>]
+TTup(items) == [err |-> "", t |-> "tup", ts |-> <<>>, items |-> items, keys |-> <<>>, vals |-> <<>>]
+TSt(keys, vals) == [err |-> "", t |-> "st", ts |-> <<>>, items |-> <<>>, keys |-> keys, vals |-> vals]
+VErr(e) == [err |-> e, t |-> "leaf", ts |-> <<>>, items |-> <<>>, keys |-> <<>>, vals |-> <<>>]
+VSet(ts) == TLeaf(ts)
+\* Structured(root, **structure): the keyword dictionary first, "root" added last
+TCtor(keys, vals) ==
+  LET idx == [i \in DOMAIN keys |-> i]
+      ord == SelectSeq(idx, LAMBDA i : keys[i] # "root") \o SelectSeq(idx, LAMBDA i : keys[i] = "root")
+  IN TSt([j \in DOMAIN ord |-> keys[ord[j]]], [j \in DOMAIN ord |-> vals[ord[j]]])
 
 Method(k) == CASE k = "name" -> "lookup" [] k = "python" -> "python" [] OTHER -> "literal"
 LeafTerms(tok) == << <<IF tok.k = "value" THEN LitFac(tok.s, tok.num, tok.ival) ELSE Fac(tok.s, Method(tok.k))>> >>
@@ -180,25 +192,76 @@ Apply(id, l, r) ==      \* non-structural binary operators on plain term lists
     [] id = "power" -> LET n == PowerArg(r) IN IF n = 0 THEN VErr("bad-power")
                        ELSE IF n > MaxPower THEN VErr("unmodelled") ELSE VSet(Power(l, n))   \* DOC
     [] OTHER -> VErr("unmodelled")
+Apply1(id, l) == IF id = "pos" THEN VSet(l) ELSE VSet(<<>>)
+\* the merger of an operator on a sequence of leaf operands
+MergerOn(id, ls) == IF Len(ls) = 1 THEN Apply1(id, ls[1].ts) ELSE Apply(id, ls[1].ts, ls[2].ts)
+
+RECURSIVE FlatMapV(_, _)
+FlatMapV(F(_), sq) == IF sq = <<>> THEN <<>> ELSE F(Head(sq)) \o FlatMapV(F, Tail(sq))
+FirstErr(vs) == LET bad == {i \in DOMAIN vs : vs[i].err # ""} IN
+                IF bad = {} THEN "" ELSE IF \E i \in bad : vs[i].err = "unmodelled" THEN "unmodelled"
+                ELSE vs[CHOOSE i \in bad : \A j \in bad : i <= j].err
+RECURSIVE KeyOrderV(_, _)
+KeyOrderV(objs, seen) ==
+  IF objs = <<>> THEN <<>>
+  ELSE LET ks == IF Head(objs).t = "st" THEN Head(objs).keys ELSE <<"root">>
+           new == SelectSeq(ks, LAMBDA k : k \notin seen)
+       IN new \o KeyOrderV(Tail(objs), seen \cup Range(new))
+ValuesForV(objs, k) ==
+  FlatMapV(LAMBDA o : IF o.t = "st" THEN FlatMapV(LAMBDA i : IF o.keys[i] = k THEN <<o.vals[i]>> ELSE <<>>, [i \in DOMAIN o.keys |-> i])
+                      ELSE IF k = "root" THEN <<o>> ELSE <<>>, objs)
+\* Structured._merge(*objs, merger = the operator id)
+RECURSIVE MergeV(_, _, _)
+MergeV(id, objs, top) ==
+  IF \A i \in DOMAIN objs : objs[i].t = "tup"
+  THEN LET m == TTup(FlatMapV(LAMBDA o : o.items, objs)) IN IF top THEN TCtor(<<"root">>, <<m>>) ELSE m
+  ELSE IF \E i \in DOMAIN objs : objs[i].t = "tup" THEN VErr("escape:ValueError")      \* "Substructures ... are not aligned"
+  ELSE IF \A i \in DOMAIN objs : objs[i].t = "leaf" THEN MergerOn(id, objs)
+  ELSE LET ks == KeyOrderV(objs, {})
+           vs == [j \in DOMAIN ks |-> LET vals == ValuesForV(objs, ks[j]) IN
+                                       IF Len(vals) = 1 THEN vals[1] ELSE MergeV(id, vals, FALSE)]
+       IN IF FirstErr(vs) # "" THEN VErr(FirstErr(vs)) ELSE TCtor(ks, vs)
+
+\* the fitted-value terms of a stage: one lookup factor "<term>_hat" per left-hand term
+RECURSIVE JoinColon(_)
+JoinColon(es) == IF Len(es) = 1 THEN es[1] ELSE es[1] \o ":" \o JoinColon(Tail(es))
+HatTerms(ts) == OSet([i \in DOMAIN ts |-> <<Fac(JoinColon(ExprSeq(ts[i])) \o "_hat", "lookup")>>])
 
 RECURSIVE Eval(_, _, _)
 Eval(node, cfg, lhsvars) ==
-  IF node.n = "leaf" THEN VSet(LeafTerms(node.tok))
+  IF node.n = "leaf" THEN TLeaf(LeafTerms(node.tok))
   ELSE LET c == node.c
            a == [i \in DOMAIN node.args |-> Eval(node.args[i], cfg, lhsvars)]
-           bad == {i \in DOMAIN a : a[i].err # ""}
-       IN IF bad # {} THEN (IF \E i \in bad : a[i].err = "unmodelled" THEN VErr("unmodelled") ELSE a[CHOOSE i \in bad : TRUE])
-          ELSE CASE c.id = "dot" -> IF cfg.avail.present THEN VSet(DotTerms(cfg, lhsvars)) ELSE VErr("dot-needs-context")
+       IN IF FirstErr(a) # "" THEN VErr(FirstErr(a))
+          ELSE CASE c.id = "dot" -> IF cfg.avail.present THEN TLeaf(DotTerms(cfg, lhsvars)) ELSE VErr("dot-needs-context")
                  [] c.id = "onesided" -> a[1]
-                 [] c.id = "twosided" -> IF a[1].t = "two" \/ a[2].t = "two" THEN VErr("unmodelled")
-                                         ELSE VTwo(a[1].parts, a[2].parts)
-                 [] c.id = "multistage" -> VErr("unmodelled")
-                 [] c.id = "part" -> IF a[1].t = "two" \/ a[2].t = "two" THEN VErr("unmodelled")
-                                     ELSE VTup(a[1].parts \o a[2].parts)
-                 [] c.id = "pos" -> IF a[1].t # "set" THEN VErr("unmodelled") ELSE a[1]
-                 [] c.id = "neg" -> IF a[1].t # "set" THEN VErr("unmodelled") ELSE VSet(<<>>)
-                 [] OTHER -> IF a[1].t # "set" \/ a[2].t # "set" THEN VErr("unmodelled")
-                             ELSE Apply(c.id, a[1].parts[1], a[2].parts[1])
+                 [] c.id = "twosided" -> TSt(<<"lhs", "rhs">>, <<a[1], a[2]>>)
+                 \* DOC: a stage whose left-hand side is itself structured is rejected (the code escapes with
+                 \* NotImplementedError, which its own test suite demands: known finding D33)
+                 [] c.id = "multistage" -> IF a[1].t # "leaf" THEN VErr("nested-multistage-lhs")
+                                           ELSE IF \E i \in DOMAIN a[1].ts : Len(a[1].ts[i]) = 0 THEN VErr("unmodelled")
+                                           ELSE TCtor(<<"root", "deps">>, <<TLeaf(HatTerms(a[1].ts)), TTup(<<TSt(<<"lhs", "rhs">>, <<a[1], a[2]>>)>>)>>)
+                 [] c.id = "part" -> TTup((IF a[1].t = "tup" THEN a[1].items ELSE <<a[1]>>) \o (IF a[2].t = "tup" THEN a[2].items ELSE <<a[2]>>))
+                 [] OTHER -> MergeV(c.id, a, TRUE)
+
+\* all leaves, depth first
+RECURSIVE Leaves(_)
+Leaves(v) == CASE v.t = "leaf" -> <<v.ts>> [] v.t = "tup" -> FlatMapV(Leaves, v.items) [] OTHER -> FlatMapV(Leaves, v.vals)
+RECURSIVE MapLeaves(_, _)
+MapLeaves(F(_), v) == CASE v.t = "leaf" -> TLeaf(F(v.ts))
+                        [] v.t = "tup" -> TTup([i \in DOMAIN v.items |-> MapLeaves(F, v.items[i])])
+                        [] OTHER -> TSt(v.keys, [i \in DOMAIN v.vals |-> MapLeaves(F, v.vals[i])])
+\* Structured._simplify(): a Structured holding only a root that is not a tuple is that root
+RECURSIVE SimplifyV(_)
+SimplifyV(v) ==
+  CASE v.t = "leaf" -> v
+    [] v.t = "tup" -> TTup([i \in DOMAIN v.items |-> SimplifyV(v.items[i])])
+    [] OTHER -> IF v.keys = <<"root">> /\ v.vals[1].t # "tup" THEN SimplifyV(v.vals[1])
+                ELSE TSt(v.keys, [i \in DOMAIN v.vals |-> SimplifyV(v.vals[i])])
+\* flat shapes: a term list, a tuple of term lists, or lhs/rhs of those
+IsParts(v) == v.t = "leaf" \/ (v.t = "tup" /\ \A i \in DOMAIN v.items : v.items[i].t = "leaf")
+PartsOf(v) == IF v.t = "leaf" THEN <<v.ts>> ELSE [i \in DOMAIN v.items |-> v.items[i].ts]
+RootOf(v) == IF v.t = "st" /\ v.keys = <<"root">> THEN v.vals[1] ELSE v
 
 (* check_terms *)
 NonLit(t) == ExprSeq(SelectSeq(t, LAMBDA f : ~IsLiteral(f)))
@@ -212,10 +275,21 @@ CheckFrom(ts, seen) ==
        IN ~single_bad /\ ~string_lit /\ h \notin seen /\ CheckFrom(Tail(ts), seen \cup {h})
 CheckTerms(ts) == CheckFrom(ts, {})
 
-(* result: what get_terms returns, and what Formula(...) holds after ordering *)
-Reject(why) == [st |-> "REJECT", why |-> why, shape |-> "root", lhs |-> <<>>, rhs |-> <<>>]
-Unmodelled == [st |-> "UNMODELLED", why |-> "", shape |-> "root", lhs |-> <<>>, rhs |-> <<>>]
-Accept(shape, l, r) == [st |-> "OK", why |-> "", shape |-> shape, lhs |-> l, rhs |-> r]
+(* result: what get_terms returns, and what Formula(...) holds after ordering.  shape is    *)
+(* "root" (parts in rhs), "two" (lhs/rhs parts) or "tree" (anything nested: the simplified   *)
+(* value in tree).                                                                            *)
+NoTree == TLeaf(<<>>)
+Reject(why) == [st |-> "REJECT", why |-> why, shape |-> "root", lhs |-> <<>>, rhs |-> <<>>, tree |-> NoTree]
+Unmodelled == [st |-> "UNMODELLED", why |-> "", shape |-> "root", lhs |-> <<>>, rhs |-> <<>>, tree |-> NoTree]
+Accept(shape, l, r) == [st |-> "OK", why |-> "", shape |-> shape, lhs |-> l, rhs |-> r, tree |-> NoTree]
+AcceptTree(v) == [st |-> "OK", why |-> "", shape |-> "tree", lhs |-> <<>>, rhs |-> <<>>, tree |-> v]
+
+Classify(v0) ==
+  LET v == RootOf(v0) IN
+  IF IsParts(v) THEN Accept("root", <<>>, PartsOf(v))
+  ELSE IF v.t = "st" /\ v.keys = <<"lhs", "rhs">> /\ IsParts(RootOf(v.vals[1])) /\ IsParts(RootOf(v.vals[2]))
+       THEN Accept("two", PartsOf(RootOf(v.vals[1])), PartsOf(RootOf(v.vals[2])))
+  ELSE AcceptTree(SimplifyV(IF v0.t = "st" THEN v0 ELSE TSt(<<"root">>, <<v0>>)))      \* get_terms_from_ast wraps a bare value
 
 Parse(cfg, toks0) ==
   LET rw == Rewrite(cfg, toks0)
@@ -225,13 +299,24 @@ Parse(cfg, toks0) ==
      ELSE LET v == Eval(m.queue[1], cfg, rw.lhsvars) IN
           IF v.err = "unmodelled" THEN Unmodelled
           ELSE IF v.err # "" THEN Reject(v.err)
-          ELSE IF \E i \in DOMAIN v.parts : ~CheckTerms(v.parts[i]) THEN Reject("check-terms")
-          ELSE IF \E i \in DOMAIN v.lparts : ~CheckTerms(v.lparts[i]) THEN Reject("check-terms")
-          ELSE Accept(IF v.t = "two" THEN "two" ELSE "root", v.lparts, v.parts)
+          ELSE IF \E i \in DOMAIN Leaves(v) : ~CheckTerms(Leaves(v)[i]) THEN Reject("check-terms")
+          ELSE Classify(v)
 
 Ordered(res) ==      \* Formula(...): every leaf sorted stably by degree
   IF res.st # "OK" THEN res
-  ELSE [res EXCEPT !.lhs = [i \in DOMAIN @ |-> SortByDegree(@[i])], !.rhs = [i \in DOMAIN @ |-> SortByDegree(@[i])]]
+  ELSE [res EXCEPT !.lhs = [i \in DOMAIN @ |-> SortByDegree(@[i])], !.rhs = [i \in DOMAIN @ |-> SortByDegree(@[i])],
+                   !.tree = MapLeaves(SortByDegree, @)]
+
+\* canonical rendering of a tree value (keys in alphabetical order; the key order is C19's matter)
+RECURSIVE JoinS(_, _)
+JoinS(ss, sep) == IF ss = <<>> THEN "" ELSE IF Len(ss) = 1 THEN ss[1] ELSE ss[1] \o sep \o JoinS(Tail(ss), sep)
+RECURSIVE TreeStr(_)
+TreeStr(v) ==
+  CASE v.t = "leaf" -> "[" \o JoinS([i \in DOMAIN v.ts |-> JoinS(ExprSeq(v.ts[i]), " & ")], " + ") \o "]"
+    [] v.t = "tup" -> "(" \o JoinS([i \in DOMAIN v.items |-> TreeStr(v.items[i])], ", ") \o ")"
+    [] OTHER -> LET ks == SelectSeq(<<"deps", "lhs", "rhs", "root">>, LAMBDA k : k \in Range(v.keys))
+                    val(k) == v.vals[CHOOSE i \in DOMAIN v.keys : v.keys[i] = k]
+                IN "<" \o JoinS([j \in DOMAIN ks |-> ks[j] \o "=" \o TreeStr(val(ks[j]))], ", ") \o ">"
 
 \* prefix rendering of the AST, for the trace leg
 RECURSIVE AstStr(_)
